@@ -8,6 +8,7 @@ package main
 
 import (
 	"context"
+	"encoding/base64"
 	"encoding/json"
 	"errors"
 	"fmt"
@@ -52,9 +53,28 @@ type wPolicy struct {
 	Files          []*wFile // "targets" first when present
 	Globals        []wGlobal
 	Hooks          []wHook // C20: pre-commit hooks declared in the root of trust
+	Apps           []wApp  // C09: code-review apps declared in the root of trust
 	// the root envelope carries no signature of its own: its signature block is copied verbatim from
 	// this other state's root envelope (signatures over other content)
 	RootSigsLiftedFrom *wPolicy
+}
+
+type wApp struct {
+	Name    string
+	Trusted bool
+	Key     int
+}
+
+// wReview is a pull-request approval attestation: the app slot and path it is stored under, the
+// change its signed statement names, the identities it lists and the keys that sign it.
+type wReview struct {
+	App                        string
+	Ref                        string
+	From, To                   int
+	PathRef                    string
+	PathFrom, PathTo           int
+	Approvers                  []string
+	Signers                    []int
 }
 
 type wHook struct {
@@ -76,6 +96,7 @@ type wEvent struct {
 	Kind    string // policy | staging | attest | ref | ann | prop
 	Pol     *wPolicy
 	Auths   []wAuthz
+	Reviews []wReview
 	Ref     string
 	Commit  int
 	Signer  int // 0: unsigned entry
@@ -255,6 +276,14 @@ func (p *wPolicy) rootMetadata() *tufv02.RootMetadata {
 		}
 		r.Roles[tuf.TargetsRoleName] = tufv02.Role{PrincipalIDs: set.NewSetFromItems(tids...), Threshold: p.TargetsThr}
 	}
+	for _, a := range p.Apps {
+		if err := r.AddGitHubAppPrincipal(a.Name, keyPrincipal(a.Key)); err != nil {
+			panic(err)
+		}
+		if a.Trusted {
+			r.EnableGitHubAppApprovals(a.Name)
+		}
+	}
 	for _, h := range p.Hooks {
 		ids := []string{}
 		for _, i := range h.Pids {
@@ -427,6 +456,23 @@ func buildWorldHook(w *wWorld, hook func(i int, b *builtWorld) error) (*builtWor
 					return nil, err
 				}
 				ents = append(ents, gitstore.TreeEntry{Path: "reference-authorizations/" + attestations.ReferenceAuthorizationPath(a.PathRef, commitStr(a.PathFrom), b.trees[a.PathTo].String()), ID: blob, Kind: gitstore.KindBlob})
+			}
+			for _, rv := range e.Reviews {
+				stmt, err := attestations.NewGitHubPullRequestApprovalAttestation(rv.Ref, commitStr(rv.From), b.trees[rv.To].String(), rv.Approvers, nil)
+				if err != nil {
+					return nil, err
+				}
+				env, err := signedEnvelope(stmt, rv.Signers)
+				if err != nil {
+					return nil, err
+				}
+				eb, _ := json.Marshal(env)
+				blob, err := b.m.WriteBlob(eb)
+				if err != nil {
+					return nil, err
+				}
+				ents = append(ents, gitstore.TreeEntry{Path: "code-review-approvals/" + attestations.GitHubPullRequestApprovalAttestationPath(rv.PathRef, commitStr(rv.PathFrom), b.trees[rv.PathTo].String()) +
+					"/" + base64.URLEncoding.EncodeToString([]byte(rv.App)), ID: blob, Kind: gitstore.KindBlob})
 			}
 			tree, err := b.m.WriteTree(ents)
 			if err != nil {
